@@ -1,6 +1,7 @@
 import EupsModel.Lemmas.VersionMatch
 import EupsModel.Lemmas.VersionAcross
 import EupsModel.Lemmas.VersionExpr
+import EupsModel.Lemmas.VersionPrint
 import EupsModel.Lemmas.VersionLex
 /-! C10 — version names are ordered consistently: property theorems.
 
@@ -55,6 +56,15 @@ def n_1d2p1 : Str := [49, 46, 50, 43, 49]   -- 1.2+1
 #guard Str.toString n_1d2p1 == "1.2+1"
 def n_a1db2 : Str := [97, 49, 46, 98, 50]   -- a1.b2
 #guard Str.toString n_a1db2 == "a1.b2"
+
+def n_1d8a : Str := [49, 46, 56, 97]   -- 1.8a
+#guard Str.toString n_1d8a == "1.8a"
+def n_1d80 : Str := [49, 46, 56, 48]   -- 1.80
+#guard Str.toString n_1d80 == "1.80"
+def n_0a : Str := [48, 97]   -- 0a
+#guard Str.toString n_0a == "0a"
+def n_09 : Str := [48, 57]   -- 09
+#guard Str.toString n_09 == "09"
 
 /-! ## which names are accepted; the model's recursion bound -/
 
@@ -241,6 +251,47 @@ example : stdCompare false n_1d9 n_1d10 = .ok (-1) ∧ stdCompare true n_1d9 n_1
 example : stdCompare false n_1d2 n_1d2d0 = .ok (-1) := by decide
 example : stdCompare false n_1d2mrc1 n_1d2 = .ok (-1) ∧ stdCompare false n_1d2p1 n_1d2 = .ok 1 := by decide
 example : stdCompare false n_1d2mrc1p3 n_1d2p1 = .ok (-1) := by decide
+
+/-! ## at the level of strings: what a name splits into, and the clauses about pre-releases and post-releases
+
+`Piece s`: `s` is non-empty, has no `-`/`+`, and does not end in `m<digits>`/`p<digits>` (the `VVVm#`/`VVVp#`
+spelling, which `_splitVersion` reads as `VVV-#`/`VVV+#`). -/
+
+/-- **print/parse**: the names `p`, `p-e`, `p+f`, `p-e+f` built from pieces split into exactly these pieces
+(`lex` is the model of `_splitVersion` applied to the name and again to its parts). -/
+theorem C10_lex_print (p e f : Str) (hp : Piece p) (he : Piece e) (hf : Piece f) :
+    lex p = .ok (.node p .absent .absent) ∧
+    lex (p ++ 45 :: e) = .ok (.node p (.node e .absent .absent) .absent) ∧
+    lex (p ++ 43 :: f) = .ok (.node p .absent (.node f .absent .absent)) ∧
+    lex (p ++ 45 :: (e ++ 43 :: f)) = .ok (.node p (.node e .absent .absent) (.node f .absent .absent)) :=
+  ⟨lex_piece hp, lex_pre ⟨hp.1, hp.2.1⟩ he, lex_post ⟨hp.1, hp.2.1⟩ hf, lex_pre_post ⟨hp.1, hp.2.1⟩ he hf⟩
+
+/-- **A pre-release precedes the release, as strings**: `p-e < p` and `p-e+f < p` for all pieces. -/
+theorem C10_prerelease_precedes_str (p e f : Str) (hp : Piece p) (he : Piece e) (hf : Piece f) :
+    stdCompare false (p ++ 45 :: e) p = .ok (-1) ∧ stdCompare false (p ++ 45 :: (e ++ 43 :: f)) p = .ok (-1) := by
+  obtain ⟨h1, h2, _, h4⟩ := C10_lex_print p e f hp he hf
+  exact ⟨C10_prerelease_precedes _ _ _ _ h2 h1 (by simp [Lexed.comps, Lexed.prim, cmpComps_self]) rfl rfl,
+    C10_prerelease_precedes _ _ _ _ h4 h1 (by simp [Lexed.comps, Lexed.prim, cmpComps_self]) rfl rfl⟩
+
+/-- **A post-release follows the release, as strings**: `p < p+f`, and `p-e < p-e+f`. -/
+theorem C10_postrelease_follows_str (p e f : Str) (hp : Piece p) (he : Piece e) (hf : Piece f) :
+    stdCompare false (p ++ 43 :: f) p = .ok 1 ∧
+    stdCompare false (p ++ 45 :: (e ++ 43 :: f)) (p ++ 45 :: e) = .ok 1 := by
+  obtain ⟨h1, h2, h3, h4⟩ := C10_lex_print p e f hp he hf
+  refine ⟨C10_postrelease_follows _ _ _ _ h3 h1 (by simp [Lexed.comps, Lexed.prim, cmpComps_self]) rfl rfl
+    f .absent .absent rfl hf.1 rfl, ?_⟩
+  -- equal primaries and equal pre-release parts: the post-release part decides
+  simp only [stdCompare, h4, h2, cmpLexed, Bool.false_eq_true, if_false, Except.ok.injEq]
+  rw [cmpSort_unfold]
+  simp only [Lexed.comps, Lexed.prim, cmpComps_self, ne_eq, not_true_eq_false, if_false, secTer, Lexed.sec, Lexed.present,
+    Bool.or_self, Bool.and_self, if_true, cmpSort_self, Lexed.ter]
+  rw [cmpSort_unfold]
+  simp only [Lexed.comps, Lexed.prim, splitSep]
+  rw [cmpComps_splitSep_absent hf.1]; simp
+
+example : Piece n_1d2 ∧ Piece n_rc1 ∧ Piece n_3 := by
+  refine ⟨⟨by decide, ?_, by decide⟩, ⟨by decide, ?_, by decide⟩, ⟨by decide, ?_, by decide⟩⟩ <;>
+    (intro c hc; simp [n_1d2, n_rc1, n_3] at hc; simp [notPM]; omega)
 
 /-! ## relational requests
 
@@ -452,6 +503,108 @@ theorem C10_match_total_general (x lead : Str) (t : GTerm) (ls : List Link) (tra
     (hcmp : ∀ y ∈ t :: ls.map Link.term, ∃ r, stdCompare true x y.name = .ok r) :
     ∃ b, versionMatch x (renderG lead t ls trail) = .ok b :=
   ⟨_, versionMatch_renderG (stdCompare true) x lead t ls trail hlead ht hls htr hcmp⟩
+
+/-! ## malformed requests: what follows a chain of alternatives -/
+
+theorem any_holds_iff (x : Str) (t : GTerm) (os : List Link) (ht : t.Wf) (hls : ∀ l ∈ os, l.Wf) :
+    (termHolds (stdCompare true) x t.term || os.any (fun l => termHolds (stdCompare true) x l.term.term)) = true ↔
+      ∃ y ∈ t :: os.map Link.term, Holds x y := by
+  simp only [Bool.or_eq_true, List.any_eq_true, List.mem_cons, List.mem_map, exists_eq_or_imp]
+  rw [holds_iff x t ht]
+  constructor
+  · rintro (h | ⟨l, hl, h⟩)
+    · exact Or.inl h
+    · exact Or.inr ⟨l.term, ⟨l, hl, rfl⟩, (holds_iff x l.term (hls l hl).2.2.1).mp h⟩
+  · rintro (h | ⟨y, ⟨l, hl, rfl⟩, h⟩)
+    · exact Or.inl h
+    · exact Or.inr ⟨l, hl, (holds_iff x l.term (hls l hl).2.2.1).mpr h⟩
+
+/-- **A relational operator with nothing after it** (`>= 1.2 || <`): the request matches if there are at least
+two terms and one of them holds (the loop returns before it reaches the operator); otherwise `IndexError`. -/
+theorem C10_match_dangling_operator (x lead : Str) (t : GTerm) (os : List Link) (trail op trail2 : Str)
+    (hlead : isWs lead) (ht : t.Wf) (hls : ∀ l ∈ os, l.Wf) (htr : isWs trail) (hop : isRelop op) (htr2 : isWs trail2)
+    (hor : ∀ l ∈ os, l.isOr) (hcmp : ∀ y ∈ t :: os.map Link.term, ∃ r, stdCompare true x y.name = .ok r) :
+    ((os ≠ [] ∧ ∃ y ∈ t :: os.map Link.term, Holds x y) →
+        versionMatch x (renderG lead t os (trail ++ (op ++ trail2))) = .ok true) ∧
+    (¬ (os ≠ [] ∧ ∃ y ∈ t :: os.map Link.term, Holds x y) →
+        versionMatch x (renderG lead t os (trail ++ (op ++ trail2))) = .error .indexError) := by
+  have htok := tokenize_renderG_tail lead t os (trail ++ (op ++ trail2)) [op] hlead ht hls
+    (fun v hv => tokGo_dangling trail op trail2 htr hop htr2 v hv)
+  obtain ⟨r, hr⟩ := hcmp t (by simp)
+  have hval : versionMatch x (renderG lead t os (trail ++ (op ++ trail2))) =
+      if os = [] then .error .indexError
+      else if (termHolds (stdCompare true) x t.term || os.any (fun l => termHolds (stdCompare true) x l.term.term)) then .ok true
+      else .error .indexError := by
+    simp only [versionMatch, htok]
+    rw [matchLoop_term (stdCompare true) x t ht _ r hr none none (by simp)]
+    simp only
+    rw [matchLoop_linksK (stdCompare true) x os [op]
+      (fun l hl => ⟨(hls l hl).2.2.1, hcmp l.term (by simp only [List.mem_cons, List.mem_map]; exact Or.inr ⟨l, hl, rfl⟩)⟩),
+      evalLinksK_or _ _ _ _ os hor]
+    simp only [matchLoop_dangling (stdCompare true) x op hop]
+  rw [hval]
+  constructor
+  · rintro ⟨hne, hex⟩
+    simp [hne, (any_holds_iff x t os ht hls).mpr hex]
+  · intro hn
+    by_cases hne : os = []
+    · simp [hne]
+    · have : ¬ ((termHolds (stdCompare true) x t.term || os.any (fun l => termHolds (stdCompare true) x l.term.term)) = true) :=
+        fun h => hn ⟨hne, (any_holds_iff x t os ht hls).mp h⟩
+      simp [hne, this]
+
+/-- **A token that is neither a term nor an operator** (`(`, `1.0|2`, `a&&b` …; "Unexpected operator"): the loop
+stops there; the request is the chain of alternatives before it, whatever text follows. -/
+theorem C10_match_unexpected_token (x lead : Str) (t : GTerm) (os : List Link) (w1 junk w2 more : Str)
+    (hlead : isWs lead) (ht : t.Wf) (hls : ∀ l ∈ os, l.Wf) (hor : ∀ l ∈ os, l.isOr)
+    (hw1 : isWs w1) (hne1 : w1 ≠ []) (hw2 : isWs w2) (hne2 : w2 ≠ [])
+    (hj : ∀ c ∈ junk, wordChar c) (hjne : junk ≠ []) (hjp : plainTok junk = false) (hja : junk ≠ sAmpAmp)
+    (hcmp : ∀ y ∈ t :: os.map Link.term, ∃ r, stdCompare true x y.name = .ok r) :
+    ∃ b, versionMatch x (renderG lead t os (w1 ++ (junk ++ (w2 ++ more)))) = .ok b ∧
+      (b = true ↔ ∃ y ∈ t :: os.map Link.term, Holds x y) := by
+  have htok := tokenize_renderG_tail lead t os (w1 ++ (junk ++ (w2 ++ more))) (junk :: tokenize more) hlead ht hls
+    (fun v hv => tokGo_junk w1 junk w2 more hw1 hne1 hj hjne hw2 hne2 v hv)
+  obtain ⟨r, hr⟩ := hcmp t (by simp)
+  have hrel : hasRelop junk = false := hasRelop_none junk (fun c hc => by obtain ⟨_, a, b, c', _⟩ := hj c hc; exact ⟨a, b, c'⟩)
+  have hbb : junk ≠ sBarBar := by
+    intro e; subst e
+    have := (hj 124 (by simp [sBarBar])).2.2.2.2
+    exact this rfl
+  refine ⟨termHolds (stdCompare true) x t.term || os.any (fun l => termHolds (stdCompare true) x l.term.term), ?_,
+    any_holds_iff x t os ht hls⟩
+  simp only [versionMatch, htok]
+  rw [matchLoop_term (stdCompare true) x t ht _ r hr none none (by simp)]
+  simp only
+  rw [matchLoop_linksK (stdCompare true) x os _
+    (fun l hl => ⟨(hls l hl).2.2.1, hcmp l.term (by simp only [List.mem_cons, List.mem_map]; exact Or.inr ⟨l, hl, rfl⟩)⟩),
+    evalLinksK_or _ _ _ _ os hor]
+  simp only [matchLoop_junk (stdCompare true) x junk _ hrel hjp hbb hja]
+  by_cases hne : os = []
+  · subst hne; simp
+  · by_cases hany : (termHolds (stdCompare true) x t.term || os.any (fun l => termHolds (stdCompare true) x l.term.term)) = true
+    · simp [hne, hany]
+    · simp only [Bool.not_eq_true] at hany
+      simp [hne, hany]
+
+/-- **A second term where a logical operator is expected** (`>= 1.2 < 2`; "Expected logical operator"): it is
+passed over without being compared; the request is its first term. -/
+theorem C10_match_missing_operator (x lead : Str) (t t2 : GTerm) (w1 trail : Str)
+    (hlead : isWs lead) (ht : t.Wf) (ht2 : t2.Wf) (hw1 : isWs w1) (hne1 : w1 ≠ []) (htr : isWs trail)
+    (hcmp : ∃ r, stdCompare true x t.name = .ok r) :
+    ∃ b, versionMatch x (renderG lead t [] (w1 ++ (t2.render ++ trail))) = .ok b ∧ (b = true ↔ Holds x t) := by
+  have htok := tokenize_renderG_tail lead t [] (w1 ++ (t2.render ++ trail)) (t2.opToks ++ [t2.name]) hlead ht (by simp)
+    (fun v hv => tokGo_juxt w1 t2 trail hw1 hne1 ht2 htr v hv)
+  obtain ⟨r, hr⟩ := hcmp
+  refine ⟨termHolds (stdCompare true) x t.term, ?_, holds_iff x t ht⟩
+  simp only [versionMatch, htok, linkToks, List.nil_append]
+  rw [matchLoop_term (stdCompare true) x t ht _ r hr none none (by simp)]
+  simp only
+  rw [matchLoop_term_skip (stdCompare true) x t2 ht2 [] _]
+  cases termHolds (stdCompare true) x t.term <;> simp [matchLoop]
+
+example : versionMatch n_1d9 [62, 61, 32, 49, 46, 50, 32, 60] = .error .indexError := by decide         -- `>= 1.2 <`
+example : versionMatch n_1d9 [62, 61, 32, 49, 46, 50, 32, 40, 32, 60] = .ok true := by decide           -- `>= 1.2 ( <`
+example : versionMatch n_1d9 [62, 61, 32, 49, 46, 50, 32, 60, 32, 49] = .ok true := by decide           -- `>= 1.2 < 1`
 
 /-! ## which version arguments are requests (`Eups.isLegalRelativeVersion`) -/
 
@@ -698,6 +851,40 @@ theorem C10_matches_across_iff (t : Term) (ts : List Term) (stacks : List (List 
     obtain ⟨st, hst, hvst⟩ := List.mem_flatten.mp hv
     exact ⟨hv, (C10_match_iff v t ts hwf (hcmp st hst v hvst)).mpr hm⟩
 
+/-- **The latest of the matching versions** (`setup prod "expr"`: `_findPreferredProductByExpr` / the VRO entry
+`versionExpr`): nothing when no declared version matches; otherwise a declared version that matches and that no
+matching declared version exceeds. -/
+theorem C10_preferred_by_expr_is_max (expr : Str) (stacks : List (List Str))
+    (hconv : ∀ st ∈ stacks, ∀ v ∈ st, convName v = true)
+    (hok : ∀ st ∈ stacks, ∀ v ∈ st, ∃ b, versionMatch v expr = .ok b) :
+    (preferredByExpr expr stacks = .ok none ∧ ∀ w ∈ stacks.flatten, versionMatch w expr ≠ .ok true) ∨
+    (∃ i v, preferredByExpr expr stacks = .ok (some (i, v)) ∧ v ∈ stacks.flatten ∧ versionMatch v expr = .ok true ∧
+      ∀ w ∈ stacks.flatten, versionMatch w expr = .ok true → ∃ r, stdCompare false w v = .ok r ∧ r ≤ 0) := by
+  obtain ⟨ms, hms, _, hiff, _⟩ := C10_matches_across expr stacks hok
+  by_cases hne : ms.map Prod.snd = []
+  · left
+    refine ⟨by simp [preferredByExpr, hms, hne, latest, lexPairs, lastMax], ?_⟩
+    intro w hw hm
+    have : w ∈ ms.map Prod.snd := (hiff w).mpr ⟨hw, hm⟩
+    rw [hne] at this; simp at this
+  · right
+    have hc : ∀ v ∈ ms.map Prod.snd, convName v = true := by
+      intro v hv
+      obtain ⟨st, hst, hvst⟩ := List.mem_flatten.mp ((hiff v).mp hv).1
+      exact hconv st hst v hvst
+    obtain ⟨i, v, hl, hget, _, hmax⟩ := C10_latest_is_max (ms.map Prod.snd) hne hc
+    rw [List.getElem?_map] at hget
+    cases hp : ms[i]? with
+    | none => simp [hp] at hget
+    | some p =>
+      simp only [hp, Option.map_some, Option.some.injEq] at hget
+      have hvm : v ∈ ms.map Prod.snd := by
+        rw [← hget]; exact List.mem_map_of_mem (List.mem_of_getElem? hp)
+      obtain ⟨hvf, hvmatch⟩ := (hiff v).mp hvm
+      refine ⟨p.1, v, ?_, hvf, hvmatch, fun w hw hm => hmax w ((hiff w).mpr ⟨hw, hm⟩)⟩
+      simp only [preferredByExpr, hms, hl, hp]
+      rw [← hget]
+
 /-! non-vacuity -/
 example : latestAcrossMin (some n_1d10) [[n_1d9, n_1d2], [n_1d2d0]] = .ok none := by decide
 example : latestAcrossMin (some n_1d9) [[n_1d9, n_1d2], [n_1d10, n_1d2d0]] = .ok (some (1, n_1d10)) := by decide
@@ -742,5 +929,18 @@ theorem C10_arbitrary_cycle_witness :
     stdCompare false n_10 n_1a = .ok (-1) ∧
     stdCompare false n_1a n_2 = .ok (-1) ∧
     stdCompare true n_10 n_1a = .error .unsortable := by decide
+
+/-- Where the conventional class stops.  A component that is not `letters* digits*` has the shape
+`letters* D letter …` with `D` a run of digits, and is compared as a *string* with every other component.
+If `D` has a digit other than `9`, two conventional components close a cycle with it: `1.8a < 1.9 < 1.80 < 1.8a`,
+`0a < 1 < 09 < 0a` (the numeric order of `9`/`80`, `1`/`09` is the reverse of their string order around the
+component).  If `D` is all nines (`1.9a`, `v99b2`) no digit string sorts above it and the order stays
+transitive (exhaustive check in docs/notes/g10.md); so "conventional" can be widened by exactly those
+components and by nothing else over letters and digits. -/
+theorem C10_boundary_witness :
+    stdCompare false n_1d8a n_1d9 = .ok (-1) ∧ stdCompare false n_1d9 n_1d80 = .ok (-1) ∧
+    stdCompare false n_1d80 n_1d8a = .ok (-1) ∧
+    stdCompare false n_0a n_1 = .ok (-1) ∧ stdCompare false n_1 n_09 = .ok (-1) ∧ stdCompare false n_09 n_0a = .ok (-1) ∧
+    convName n_1d8a = false ∧ convName n_0a = false ∧ convName n_1d80 = true ∧ convName n_09 = true := by decide
 
 end EupsModel.C10
